@@ -1,5 +1,5 @@
 """C03 -- decoding honours the WIRE blockLength / numInGroup (schema extension), for random access."""
-import hgen, msggen, c01, c02
+import hgen, msggen, c01, c02, c04
 from hgen import P, M
 from msggen import SZ, pn, idx
 
@@ -28,7 +28,7 @@ def build(ctx):
     hs = []
     G, D, E = 2, ctx.q(1, 2), ctx.q(2, 4)
     ctx.assumptions = ["wire blockLength of the root block and of every group symbolic in [compiled, compiled+%d] independently per level; numInGroup <= %d; data length <= %d; all bytes symbolic" % (E, G, D),
-                       "random access only in this check; cursor access under extension is exercised by C04, visiting by C19 (both use the same extended-geometry walker)"]
+                       "random access (get/set/size) and the one-step cursor protocol under extension are checked here; visiting under extension is exercised by C19 (same extended-geometry walker)"]
     plan = [("vs_msg_le.xml", "17", "checked"), ("vs_msg_be.xml", "20", "checked")] if ctx.quick else \
         [(x, s, "checked") for s in ("11", "14", "17", "20", "2b") for x in ("vs_msg_le.xml", "vs_msg_be.xml")] + [("vs_msg_le.xml", "17", "unchecked")]
     for (xml, std, mode) in plan:
@@ -36,11 +36,12 @@ def build(ctx):
         for msg in sch.messages:
             if ctx.quick and msg.name in c02.QUICK_SKIP: continue
             g = msggen.MG(sch, msg, G)
-            u = ctx.lower("c03_%s_%s" % (sch.ns, msg.name), g.cpp_prelude() + g.cpp_getset(setters=True) + g.cpp_geom(mutators=True, sizes=True), std=std, mode=mode, incs=[inc])
+            u = ctx.lower("c03_%s_%s" % (sch.ns, msg.name), g.cpp_prelude() + g.cpp_getset(setters=True) + g.cpp_geom(mutators=True, sizes=True) + g.cpp_cursor(), std=std, mode=mode, incs=[inc])
             N = g.max_size(E, D) + 1
             dynamic = bool(msg.groups or msg.data)
             for lv in g.levels:
-                for kind, arms, mk in (("get", c02.leaf_arms(g, lv, sch) + c02.dyn_arms(g, lv), c02.harness), ("set", c01.arms_for(g, lv), c01.harness), ("size", size_arms(g, lv), c02.harness)):
+                for kind, arms, mk in (("get", c02.leaf_arms(g, lv, sch) + c02.dyn_arms(g, lv), c02.harness), ("set", c01.arms_for(g, lv), c01.harness), ("size", size_arms(g, lv), c02.harness),
+                                       ("cursor", c04.arms_for(g, lv, mode == "checked"), c04.harness)):
                     if not arms: continue
                     groups = [[a] for a in arms] if dynamic else [arms[j:j + 6] for j in range(0, len(arms), 6)]
                     for k, chunk in enumerate(groups):
